@@ -11,8 +11,9 @@ Model: `TLVerif/Codec/Json.lean` (`writeJson` / `readJson`, tied to the generate
   `JsonRoundTrip` is the full-strength statement, `json_roundtrip_fails_at_neg_zero` / `…_nan_payload` are proved
   counter-examples (leads L2, L3 of DESIGN §6); further failures found by the check (dictionary keys that are not
   valid UTF-8 or need escaping, nil recursive pointers) are recorded in `known_findings.d/C05.json`.
-  What is proved of the positive direction: the guard-respecting primitive round trips below (`prim_roundtrip_*`);
-  the composite cases are explored by the differential run only (stated as such in the manifest).
+  What is proved of the positive direction: the primitive round trips below (`prim_roundtrip_*`: all integers, all strings,
+  booleans, the special floats); finite floats (shortest-digit printing / correctly rounded parsing) and the composite
+  types are explored by the differential run only (stated as such in the manifest).
 -/
 namespace TLVerif.Props.C05
 open TLVerif.Codec TLVerif.Prim
@@ -93,6 +94,21 @@ theorem prim_roundtrip_string_utf8 (s : Bytes) (h : utf8Valid s = true) :
 theorem prim_string_non_utf8_is_base64 (s : Bytes) (h : utf8Valid s = false) :
     writePrimJ .str (.str s) = .ok (.obj [(kBase64, .str (base64Encode s))]) := by
   simp [writePrimJ, h]
+
+/-- every string — valid UTF-8 or not — reads back exactly (plain JSON string, or `{"base64":…}` whose decoding is the inverse of
+the encoding: `base64_roundtrip`) -/
+theorem prim_roundtrip_string (s : Bytes) : ∃ j, writePrimJ .str (.str s) = .ok j ∧ readPrimJ .str (some j) = .ok (.str s) :=
+  readString_roundtrip s
+
+/-- unsigned integers (`#`, `uint64`, `byte`) read back exactly from the decimal text the writer emits -/
+theorem prim_roundtrip_uint (k : PrimK) (bits : Nat) (hk : (k = .u32 ∧ bits = 32) ∨ (k = .u64 ∧ bits = 64) ∨ (k = .byte ∧ bits = 8))
+    (n : Nat) (h : n < 2 ^ bits) : ∃ j, writePrimJ k (.nat n) = .ok j ∧ readPrimJ k (some j) = .ok (.nat n) :=
+  readUint_roundtrip k bits hk n h
+
+/-- signed integers (`int`, `long`; two's complement patterns) read back exactly, including the minimum value -/
+theorem prim_roundtrip_int (k : PrimK) (bits : Nat) (hk : (k = .i32 ∧ bits = 32) ∨ (k = .i64 ∧ bits = 64))
+    (n : Nat) (h : n < 2 ^ bits) : ∃ j, writePrimJ k (.nat n) = .ok j ∧ readPrimJ k (some j) = .ok (.nat n) :=
+  readInt_roundtrip k bits hk n h
 
 /-- ±Inf and NaN are written as the strings the reader maps back to ±Inf / the canonical NaN -/
 theorem prim_float32_specials :
